@@ -165,7 +165,8 @@ def w_crash(kind: int, cfg: int, k: int, mode: int) -> str:
 
 
 def obligations(tier):
-    return [CH('W_crash_point_x_kind_x_config', MOD, 'w_crash', timeout=2400, partitions=[(c, md) for c in range(12) for md in range(3)], engine='W',
+    from harness import kpair
+    return kpair.obligations(tier) + [CH('W_crash_point_x_kind_x_config', MOD, 'w_crash', timeout=2400, partitions=[(c, md) for c in range(12) for md in range(3)], engine='W',
                regime='selector', encodes=K.PUT_FUNCS + ['shutil.move/copytree/copy2/rmtree, os.makedirs (CPython source over the model)'],
                stubs=K.STUBS + ['SIGKILL -> sticky BaseException at the k-th system call', 'SIGINT -> one KeyboardInterrupt instead of / right after the k-th system call'],
                bounds='crash point k in 0..(longest undisturbed run of the configuration, measured) x 3 ways of dying (fail-stop; KeyboardInterrupt '
